@@ -1,2 +1,208 @@
+(* C01/Properties.v — property theorems only: statement, `exact`, Print Assumptions.
+   Model (coq/C01/Model.v) = what klongpy's verbs do on literal operands; Spec (coq/C01/Spec.v) = what the
+   Klong reference prescribes.  All statements are unbounded in list length, nesting depth and element values. *)
 From Coq Require Import ZArith List Bool String.
 From C01 Require Import Generated Model Spec Proofs.
+Import ListNotations.
+Open Scope Z_scope.
+
+(* ---- T1.atomic: "atomic verbs apply element-wise through any nesting depth with atom-to-list extension" ----
+   (a) a verb that hands both operands to a NumPy ufunc with a recursive object loop (+ - * %):
+       for every scalar function sf (sfpy = what the object loop computes on Python scalars, equal to sf on okb),
+       ALL numeric operands of any nesting / raggedness that conform, outside the known-finding class "broadcast"
+       (two list operands whose NumPy shapes differ meet), give exactly the member-wise extension s2 sf. *)
+Theorem C01_atomic_ufunc : forall (sf sfpy : val -> val -> res) (okb : val -> bool),
+  (forall x y, okb y = true -> sfpy x y = sf x y) ->
+  forall fuel a b,
+    (depth a + depth b < fuel)%nat ->
+    all_leaves is_num a = true -> all_leaves is_num b = true ->
+    conformable a b = true -> kb_np a b = false -> all_leaves okb b = true ->
+    np2 fuel ObjRec sf sfpy a b = s2 sf a b.
+Proof. exact np2_rec_spec. Qed.
+Print Assumptions C01_atomic_ufunc.
+
+(* (b) any ufunc, also those without a usable object loop (& | !), on numbers and rectangular numeric arrays *)
+Theorem C01_atomic_ufunc_rect : forall (mode : objmode) (sf sfpy : val -> val -> res) fuel' a b,
+  is_obj a = false -> is_obj b = false ->
+  all_leaves is_num a = true -> all_leaves is_num b = true ->
+  kb_np a b = false ->
+  np2 (S fuel') mode sf sfpy a b = s2 sf a b.
+Proof. exact np2_rect_spec. Qed.
+Print Assumptions C01_atomic_ufunc_rect.
+
+(* (c) a verb routed through vec_fn2 (= < > :%): operands of ANY kind (strings, characters and symbols are atoms),
+       any nesting; whenever the reference result v exists and is not touched by kg_asarray's homogenisation. *)
+Theorem C01_atomic_vec_fn2 : forall (sf : val -> val -> res) fuel a b v,
+  (depth a + depth b < fuel)%nat ->
+  conformable a b = true -> kb_vec a b = false ->
+  s2 sf a b = Ok v -> norm v = v ->
+  vec2 fuel (leaf2 sf) a b = Ok v.
+Proof. exact vec2_spec. Qed.
+Print Assumptions C01_atomic_vec_fn2.
+
+(* ---- the atomic dyads themselves ---- *)
+Theorem C01_plus : forall a b, num_tree a = true -> num_tree b = true -> conformable a b = true -> kb_np a b = false ->
+  m_add a b = s2 sc_add a b.
+Proof. exact add_spec. Qed.
+Print Assumptions C01_plus.
+Theorem C01_minus : forall a b, num_tree a = true -> num_tree b = true -> conformable a b = true -> kb_np a b = false ->
+  m_sub a b = s2 sc_sub a b.
+Proof. exact sub_spec. Qed.
+Print Assumptions C01_minus.
+Theorem C01_times : forall a b, num_tree a = true -> num_tree b = true -> conformable a b = true -> kb_np a b = false ->
+  m_mul a b = s2 sc_mul a b.
+Proof. exact mul_spec. Qed.
+Print Assumptions C01_times.
+Theorem C01_divide : forall a b, num_tree a = true -> num_tree b = true -> conformable a b = true -> kb_np a b = false ->
+  nonzero_tree b = true -> m_div a b = s2 sc_div a b.
+Proof. exact div_spec. Qed.
+Print Assumptions C01_divide.
+Theorem C01_min : forall a b, num_tree a = true -> num_tree b = true -> kb_np a b = false -> no_obj a b = true ->
+  m_min a b = s2 sc_min a b.
+Proof. exact min_spec. Qed.
+Print Assumptions C01_min.
+Theorem C01_max : forall a b, num_tree a = true -> num_tree b = true -> kb_np a b = false -> no_obj a b = true ->
+  m_max a b = s2 sc_max a b.
+Proof. exact max_spec. Qed.
+Print Assumptions C01_max.
+Theorem C01_remainder : forall a b, num_tree a = true -> num_tree b = true -> kb_np a b = false -> no_obj a b = true ->
+  m_rem a b = s2 sc_fmod a b.
+Proof. exact rem_spec. Qed.
+Print Assumptions C01_remainder.
+Theorem C01_equal : forall a b v, conformable a b = true -> kb_vec a b = false -> norm v = v ->
+  s2 sc_equal a b = Ok v -> m_equal a b = Ok v.
+Proof. exact equal_spec. Qed.
+Print Assumptions C01_equal.
+Theorem C01_less : forall a b v, conformable a b = true -> kb_vec a b = false -> norm v = v ->
+  num_tree a = true -> num_tree b = true -> s2 sc_less a b = Ok v -> m_less a b = Ok v.
+Proof. exact less_spec. Qed.
+Print Assumptions C01_less.
+Theorem C01_more : forall a b v, conformable a b = true -> kb_vec a b = false -> norm v = v ->
+  num_tree a = true -> num_tree b = true -> s2 sc_more a b = Ok v -> m_more a b = Ok v.
+Proof. exact more_spec. Qed.
+Print Assumptions C01_more.
+Theorem C01_integer_divide : forall a b v, conformable a b = true -> kb_vec a b = false -> norm v = v ->
+  num_tree a = true -> num_tree b = true -> nonzero_tree b = true -> s2 sc_idiv a b = Ok v -> m_idiv a b = Ok v.
+Proof. exact idiv_spec. Qed.
+Print Assumptions C01_integer_divide.
+(* strings, characters and symbols are compared as wholes *)
+Theorem C01_less_atoms : forall a b, is_arr a = false -> is_arr b = false -> m_less a b = sc_less a b.
+Proof. exact less_atoms. Qed.
+Print Assumptions C01_less_atoms.
+Theorem C01_equal_atoms : forall a b, is_arr a = false -> is_arr b = false -> m_equal a b = sc_equal a b.
+Proof. exact equal_atoms. Qed.
+Print Assumptions C01_equal_atoms.
+
+(* ---- T1.kind ---- *)
+Theorem C01_kind_integers_closed : forall x y,
+  (exists z, sc_add (VI x) (VI y) = Ok (VI z)) /\ (exists z, sc_sub (VI x) (VI y) = Ok (VI z)) /\
+  (exists z, sc_mul (VI x) (VI y) = Ok (VI z)) /\ (exists z, sc_min (VI x) (VI y) = Ok (VI z)) /\
+  (exists z, sc_max (VI x) (VI y) = Ok (VI z)) /\ (exists z, sc_fmod (VI x) (VI y) = Ok (VI z)) /\
+  (y <> 0 -> sc_idiv (VI x) (VI y) = Ok (VI (Z.quot x y))).
+Proof. exact kind_int_closed. Qed.
+Print Assumptions C01_kind_integers_closed.
+Theorem C01_kind_divide_is_real : forall a b r, sc_div a b = Ok r -> exists x, r = VR x.
+Proof. exact kind_divide_real. Qed.
+Print Assumptions C01_kind_divide_is_real.
+Theorem C01_kind_comparison_is_bit : forall a b r, sc_less a b = Ok r \/ sc_equal a b = Ok r -> r = VI 0 \/ r = VI 1.
+Proof. exact kind_compare_bit. Qed.
+Print Assumptions C01_kind_comparison_is_bit.
+Theorem C01_kind_floor_is_integer : forall a r, sc_floor a = Ok r -> exists z, r = VI z.
+Proof. exact kind_floor_int. Qed.
+Print Assumptions C01_kind_floor_is_integer.
+
+(* ---- structural verbs with counts, at the level of the dispatcher (m_dyad / m_monad by Python function name) ---- *)
+(* Take: any count (negative, overshooting: cycling), strings and every list whose NumPy array is 1-D
+   (vectors, ragged and mixed lists); matrices with a count beyond the number of rows are the class "take-matrix" *)
+Theorem C01_take : forall n b, canonical b = true ->
+  dom_dyad "eval_dyad_take" (VI n) b = true -> (npdepth b <= 1)%nat ->
+  m_dyad "eval_dyad_take" (VI n) b = s_dyad "eval_dyad_take" (VI n) b.
+Proof. exact take_holds. Qed.
+Print Assumptions C01_take.
+
+(* Drop: all of its domain *)
+Theorem C01_drop : forall a b, canonical a && canonical b = true ->
+  dom_dyad "eval_dyad_drop" a b = true ->
+  m_dyad "eval_dyad_drop" a b = s_dyad "eval_dyad_drop" a b.
+Proof. exact drop_holds. Qed.
+Print Assumptions C01_drop.
+
+(* Rotate: all of its domain (rows of matrices included) — holds because the regenerated flag says np.roll is
+   called with axis=0 (fix: commit); with the flag false the statement is refuted below *)
+Theorem C01_rotate : forall a b, canonical a && canonical b = true ->
+  dom_dyad "eval_dyad_rotate" a b = true ->
+  m_dyad "eval_dyad_rotate" a b = s_dyad "eval_dyad_rotate" a b.
+Proof. exact (rotate_holds eq_refl). Qed.
+Print Assumptions C01_rotate.
+
+(* Reverse: every operand, atoms included — holds because the regenerated flag says atoms are returned unchanged *)
+Theorem C01_reverse : forall a, canonical a = true ->
+  m_monad "eval_monad_reverse" a = s_monad "eval_monad_reverse" a.
+Proof. exact (reverse_holds eq_refl). Qed.
+Print Assumptions C01_reverse.
+
+(* the dispatch tables of create_monad_functions / create_dyad_functions are the ones the model was written
+   against, every modelled verb is still dispatched, and Split / Reshape carry their fix: *)
+Theorem C01_all_modelled_verbs_present : check_tables = true.
+Proof. exact tables_checked. Qed.
+Print Assumptions C01_all_modelled_verbs_present.
+Theorem C01_fix_flags : split_by_segment_size && reshape_guards_symbols = true.
+Proof. exact eq_refl. Qed.
+
+(* ---- the full statement does not hold of the faithful model: one witness per known-finding class,
+        each inside the verb's domain, each replayed on the implementation at every run ---- *)
+Definition C01_full_statement : Prop :=
+  (forall f a b, dom_dyad f a b = true -> m_dyad f (norm a) (norm b) = s_dyad f a b) /\
+  (forall f a, dom_monad f a = true -> m_monad f (norm a) = s_monad f a).
+
+Theorem C01_known_classes_refuted :
+  refutes_m "homogenise" "eval_monad_first" (VL [VI 1; r25]) &&
+  refutes_d "broadcast" "eval_dyad_add" (VL [VI 1; VI 2]) m22 &&
+  refutes_d "no-object-loop" "eval_dyad_minimum" (VL [VI 1; VL [VI 2; VI 3]]) (VL [VI 1; VL [VI 2; VI 3]]) &&
+  refutes_d "take-matrix" "eval_dyad_take" (VI 3) m22 &&
+  refutes_m "first-of-string" "eval_monad_first" (VS [97; 98; 99]) &&
+  refutes_m "floor-overflow" "eval_monad_floor" (VR (real_of_bits 6103021453049119613)) &&
+  refutes_d "match-tolerance" "eval_dyad_match" (VI 100000) (VI 100001) &&
+  refutes_d "reshape-char-0" "eval_dyad_reshape" (VI 0) (VC 97) &&
+  refutes_d "reshape-nested" "eval_dyad_reshape" (VL [VI 2]) (VL [VL [VI 1; VI 2; VI 3]]) &&
+  refutes_d "find-nested" "eval_dyad_find" (VL [VL [VI 1; VI 2]; VL [VI 1; VI 1]]) (VI 1) &&
+  refutes_d "find-symbol" "eval_dyad_find" (VL [VY [97]; VY [98]]) (VY [97]) &&
+  refutes_d "join-ragged" "eval_dyad_join" m22 a223 &&
+  refutes_m "char-of-empty" "eval_monad_char" (VL []) &&
+  refutes_m "expand-empty" "eval_monad_expand_where" (VL []) = true.
+Proof. exact refuted_witnesses. Qed.
+
+(* the statements C01_rotate / C01_reverse are false of the code before the fix: commits (flag = false) *)
+Theorem C01_rotate_refuted_without_axis0 :
+  res_eqb (m_rotate_gen false (VI 1) (VL [VL [VI 1; VI 2]; VL [VI 4; VI 5]; VL [VI 5; VI 6]]))
+          (s_dyad "eval_dyad_rotate" (VI 1) (VL [VL [VI 1; VI 2]; VL [VI 4; VI 5]; VL [VI 5; VI 6]])) = false.
+Proof. exact rotate_without_axis0. Qed.
+Theorem C01_reverse_refuted_without_guard :
+  m_reverse_gen false (VI 1) = Err /\ s_monad "eval_monad_reverse" (VI 1) = Ok (VI 1).
+Proof. exact reverse_without_guard. Qed.
+
+(* ---- non-vacuity: concrete non-trivial operands meet the hypotheses ---- *)
+Example C01_plus_example :
+  let a := VL [VI 1; VL [VI 2; VR (real_of_bits 4612811918334230528)]] in   (* [1 [2 2.5]] *)
+  let b := VL [VL [VI 10; VI 20]; VI 5] in                                  (* [[10 20] 5]  *)
+  num_tree a = true /\ num_tree b = true /\ conformable a b = true /\ kb_np a b = false /\
+  res_eqb (m_add a b) (Ok (VL [VL [VI 11; VI 21]; VL [VI 7; VR (real_of_bits 4620130267728707584)]])) = true.
+Proof. vm_compute. repeat split; reflexivity. Qed.
+
+Example C01_equal_example :
+  let a := VL [VS [97; 98]; VL [VI 1; VI 2]] in      (* ["ab" [1 2]] *)
+  let b := VL [VS [97; 98]; VI 2] in                  (* ["ab" 2]     *)
+  conformable a b = true /\ kb_vec a b = false /\
+  s2 sc_equal a b = Ok (VL [VI 1; VL [VI 0; VI 1]]) /\ m_equal a b = Ok (VL [VI 1; VL [VI 0; VI 1]]).
+Proof. vm_compute. repeat split; reflexivity. Qed.
+
+Example C01_take_example :
+  dom_dyad "eval_dyad_take" (VI (-5)) (VL [VI 1; VI 2; VI 3]) = true /\
+  m_dyad "eval_dyad_take" (VI (-5)) (VL [VI 1; VI 2; VI 3]) = Ok (VL [VI 2; VI 3; VI 1; VI 2; VI 3]) /\
+  m_dyad "eval_dyad_take" (VI 7) (VS [97; 98; 99]) = Ok (VS [97; 98; 99; 97; 98; 99; 97]).
+Proof. vm_compute. repeat split; reflexivity. Qed.
+
+Example C01_rotate_example :
+  m_dyad "eval_dyad_rotate" (VI 1) (VL [VL [VI 1; VI 2]; VL [VI 4; VI 5]; VL [VI 5; VI 6]])
+  = Ok (VL [VL [VI 5; VI 6]; VL [VI 1; VI 2]; VL [VI 4; VI 5]]).
+Proof. vm_compute. reflexivity. Qed.
